@@ -3,10 +3,13 @@
 package world
 
 import (
+	"sort"
+
 	"bytes"
 	"context"
 	"encoding/json"
 	"fmt"
+	"github.com/siglens/siglens/pkg/segment/sortindex"
 	htmltemplate "html/template"
 	"io"
 	"math"
@@ -107,6 +110,20 @@ func Boot(mode string, k *plan.Knobs) error {
 		writer.SetCardinalityLimit(uint16(k.CardLimit))
 	}
 	applyMetricsKnobs(k)
+	// sort-index columns per index: the setting behind POST /api/sort-columns (a file under the data directory),
+	// applied before any data arrives so that every rotation builds the index
+	if len(k.SortCols) > 0 {
+		names := make([]string, 0, len(k.SortCols))
+		for ix := range k.SortCols {
+			names = append(names, ix)
+		}
+		sort.Strings(names)
+		for _, ix := range names {
+			if err := sortindex.SetSortColumns(ix, k.SortCols[ix]); err != nil {
+				return fmt.Errorf("SetSortColumns(%s): %w", ix, err)
+			}
+		}
+	}
 	switch mode {
 	case "full":
 		hooks.GlobalHooks.ParseTemplatesHook = func(htmlTemplate *htmltemplate.Template, textTemplate *texttemplate.Template) {}
